@@ -554,7 +554,7 @@ VP_HARNESS(h_import_memattr)
 #ifndef DOC_HI
 #define DOC_HI 3
 #endif
-#define NDOC 34
+#define NDOC 35
 static struct tt_elem *doc_obj(struct tt_elem *p, const char *type, const char *os, const char *cpuset, const char *nodeset, const char *gp)
 {
   struct tt_elem *o = tt_child(p, "object");
@@ -566,7 +566,7 @@ static struct tt_elem *doc_obj(struct tt_elem *p, const char *type, const char *
   return o;
 }
 /* 1 = a legal document: it must load; 0 = a document with a defect: refused, or loaded into a well-formed topology */
-static const int doc_loads[NDOC] = { 1, 0, 0, 0, 0, 0, 0, 0, 0, 0,   0, 0, 0, 0, 0, 1, 1, 1, 1, 0,   1, 1, 0, 1, 0, 0, 1, 1, 0, 1,   0, 0, 0, 0 };
+static const int doc_loads[NDOC] = { 1, 0, 0, 0, 0, 0, 0, 0, 0, 0,   0, 0, 0, 0, 0, 1, 1, 1, 1, 0,   1, 1, 0, 1, 0, 0, 1, 1, 0, 1,   0, 0, 0, 0,   0 };
 static unsigned doc_loaded, doc_refused;
 static void doc_case(int c)
 {
@@ -576,7 +576,8 @@ static void doc_case(int c)
   tt_attr(M, "type", c == 11 ? "Bogus" : c == 30 ? "Bridge" : "Machine");           /* 11: unknown type string; 30: a root that the attribute importer marks as ignored (bad bridge_pci) */
   if (c == 30) { tt_attr(M, "bridge_type", "0-1"); tt_attr(M, "depth", "0"); tt_attr(M, "bridge_pci", "zz"); }
   tt_attr(M, "os_index", "0"); tt_attr(M, "cpuset", "0x00000003"); if (c != 31) tt_attr(M, "complete_cpuset", "0x00000003"); tt_attr(M, "allowed_cpuset", "0x00000003");      /* 31: root with sets but without complete_ sets */
-  if (c != 14) { tt_attr(M, "nodeset", c == 15 ? "0x0" : "0x00000001"); if (c != 31) tt_attr(M, "complete_nodeset", c == 15 ? "0x0" : "0x00000001"); tt_attr(M, "allowed_nodeset", "0x00000001"); }      /* 14: root without nodeset (its NUMA child then has a nodeset while the parent has none), 15: empty root nodeset (completed by the NUMA child: loads) */
+  if (c == 34) { tt_attr(M, "nodeset", "0x00000003"); tt_attr(M, "complete_nodeset", "0x00000003"); tt_attr(M, "allowed_nodeset", "0x00000003"); }      /* 34: two NUMA nodes, the first one claims both bits */
+  else if (c != 14) { tt_attr(M, "nodeset", c == 15 ? "0x0" : "0x00000001"); if (c != 31) tt_attr(M, "complete_nodeset", c == 15 ? "0x0" : "0x00000001"); tt_attr(M, "allowed_nodeset", "0x00000001"); }      /* 14: root without nodeset (its NUMA child then has a nodeset while the parent has none), 15: empty root nodeset (completed by the NUMA child: loads) */
   tt_attr(M, "gp_index", "1");
   if (c == 19) { struct tt_elem *i = tt_child(M, "info"); tt_attr(i, "name", "n"); tt_attr(i, "bogus", "v"); }                   /* 19: info with an unknown attribute */
   if (c == 20) { struct tt_elem *i = tt_child(M, "info"); tt_attr(i, "name", "n"); }                                            /* 20: info without value: ignored */
@@ -584,8 +585,9 @@ static void doc_case(int c)
   if (c == 13) tt_child(M, "bogus");                                                                                            /* 13: unknown child tag */
   struct tt_elem *N;
   if (c == 33) { N = tt_child(M, "object"); tt_attr(N, "type", "NUMANode"); tt_attr(N, "os_index", "0"); tt_attr(N, "cpuset", "0x00000003"); tt_attr(N, "complete_cpuset", "0x00000003"); tt_attr(N, "nodeset", "0x00000001"); tt_attr(N, "gp_index", "2"); }      /* 33: NUMA node without complete_nodeset */
-  else N = doc_obj(M, "NUMANode", "0", "0x00000003", c == 3 ? "0x00000003" : "0x00000001", "2");                      /* 3: NUMA node with two bits */
+  else N = doc_obj(M, "NUMANode", "0", "0x00000003", (c == 3 || c == 34) ? "0x00000003" : "0x00000001", "2");                      /* 3: NUMA node with two bits */
   tt_attr(N, "local_memory", "4096");
+  if (c == 34) { struct tt_elem *N1 = doc_obj(M, "NUMANode", "1", "0x00000003", "0x00000002", "10"); tt_attr(N1, "local_memory", "4096"); }      /* 34: NUMA#0 with nodeset 0x3 next to NUMA#1 with 0x2: the nodesets of two nodes intersect */
   if (c == 9) { struct tt_elem *b = doc_obj(N, "Bridge", NULL, NULL, NULL, "9"); tt_attr(b, "bridge_type", "0-1"); tt_attr(b, "depth", "0"); tt_attr(b, "bridge_pci", "0000:[00-01]"); }      /* 9: I/O below memory */
   struct tt_elem *parent = M;
   if (c == 23) { parent = doc_obj(M, "Group", NULL, "0x00000003", "0x00000001", "7"); tt_attr(parent, "kind", "0"); tt_attr(parent, "subkind", "0"); }            /* 23: a Group identical to its parent: merged by the core */
